@@ -26,6 +26,8 @@ ORACLES = [
     (r'time :: impl Time / fn (add_interval_dt|sub_interval_dt)', ['time_add_interval']),
     (r'interval :: impl Interval(YM|DT) / fn (try_from_ym|is_valid_ym|try_from_dhms|is_valid|extract|from_ym_unchecked|from_dhms_unchecked)', ['interval_ctor']),
     (r'oracle :: impl (From<Timestamp> for Date|Date / fn (try_from_usecs|is_valid_date|new))', ['od_from_timestamp']),
+    (r'oracle :: impl Date / fn add_days|kani::od_add_days', ['od_add_days']),
+    (r'timestamp :: impl Timestamp / fn add_days|kani::ts_add_days', ['ts_add_days']),
 ]
 
 
